@@ -9,7 +9,8 @@ for d in sorted(glob.glob(V + "/seeded/*")):
     caught = next((t for t in ("quick", "thorough") if isinstance(det.get(t), dict) and det[t]["exit"] == 1), None)
     sites = ", ".join((det.get(caught) or {}).get("violation_sites", [])[:2]) if caught else ""
     first = m["needs_to_manifest"].strip().split("\n")[0][:150].replace("|", "/")
-    rows.append("| %s | %s | %s | %s | %s |" % (m["seed_id"], m["breaks_property"], first, ("caught (%s)" % caught) if caught else "**missed**", sites.replace("|", "/")))
+    note = m.get("note_by_framework_author")
+    rows.append("| %s | %s | %s | %s | %s |" % (m["seed_id"], m["breaks_property"], first, ("caught (%s)" % caught) if caught else ("**missed** - " + note if note else "**missed**"), sites.replace("|", "/")))
 tab = "| seed | property | change (first line of the author's note) | result | violation reported at |\n|---|---|---|---|---|\n" + "\n".join(rows) + "\n"
 s = open(V + "/DESIGN.md").read()
 s = re.sub(r"<!-- SEEDTABLE:BEGIN -->.*?<!-- SEEDTABLE:END -->", "<!-- SEEDTABLE:BEGIN -->\n" + tab + "<!-- SEEDTABLE:END -->", s, flags=re.S)
